@@ -11,6 +11,10 @@ import numpy as np
 ATTR_KEYS = {1: "color", 2: "wt", 3: "mult", 4: "weight", 9: "label"}
 ATTR_KEYS_INV = {v: k for k, v in ATTR_KEYS.items()}
 
+# labels with characters that str.splitlines / str.split() treat as separators but "\n"-based line
+# reading does not (only used with explicit delimiters)
+EXOTIC = ["a\u2028b", "id\x1d42", "p\rq", "x\x85y", "m\x0cn", "t\u2029u", "v\x0bw", "s\x1ct"]
+NUMSTR = ["10", "2", "33", "4", "100", "7", "21", "3"]
 UNKNOWN = -2  # a label the map cannot invert (reported as an anomaly)
 
 
@@ -60,6 +64,10 @@ class Gamma:
             return np.int64(k)
         if nk == "tuple":
             return (int(k), "a")
+        if nk == "exotic":
+            return EXOTIC[k] if k < len(EXOTIC) else f"z{k}\x1ey"
+        if nk == "numstr":  # strings that look like numbers: lexicographic and numeric order differ
+            return NUMSTR[k] if k < len(NUMSTR) else str(1000 + k)
         if nk == "mixed":  # numbers and strings together (only for operations that never compare labels)
             return int(k) if k % 2 == 0 else f"n{k}"
         raise ValueError(nk)
@@ -81,6 +89,12 @@ class Gamma:
             elif nk == "tuple":
                 if isinstance(lab, tuple) and len(lab) == 2 and lab[1] == "a":
                     return int(lab[0])
+            elif nk == "exotic":
+                if isinstance(lab, str):
+                    return EXOTIC.index(lab) if lab in EXOTIC else int(lab[1:-2])
+            elif nk == "numstr":
+                if isinstance(lab, str):
+                    return NUMSTR.index(lab) if lab in NUMSTR else int(lab) - 1000
             elif nk == "mixed":
                 if isinstance(lab, str) and lab[:1] == "n" and int(lab[1:]) % 2 == 1:
                     return int(lab[1:])
